@@ -156,8 +156,12 @@ class Check:
             from .model import _CURRENT
             drift = getattr(_CURRENT[-1], "new_private_names", {}) if _CURRENT else {}
             new_names = {n for v in drift.values() for n in v}
+            drifted_modules = {f[:-3].replace("/", ".").split(".", 1)[-1] for f in drift}
             if new_names:
-                stand = [v for v in violations if set(v.function.replace("<locals>", "").split(".")) & new_names]
+                # findings inside a new helper, or in a module nobody restructured, stand
+                stand = [v for v in violations
+                         if set(v.function.replace("<locals>", "").split(".")) & new_names
+                         or v.module not in drifted_modules]
                 if not stand:
                     for v in violations:
                         print(f"UNCONFIRMED property={self.pid} [{v.rule}] {v.loc} {v.module}:{v.function}: "
